@@ -1,6 +1,7 @@
 from __future__ import annotations
 
 import ast
+import builtins
 import copy
 import inspect
 import logging
@@ -453,6 +454,15 @@ class _MethodTypeReturnInfo:
 T = TypeVar("T")
 
 
+def _is_method_of_builtin(obj_type: Any, method_name: str) -> bool:
+    "Is the method defined by one of Python's builtin classes (`str.split`, `int.bit_length`)?"
+    info = get_method_and_class(obj_type, method_name)
+    if info is None:
+        return False
+    defining_class = info[0]
+    return getattr(builtins, getattr(defining_class, "__name__", ""), None) is defining_class
+
+
 def remap_by_types(
     o_stream: ObjectStream[T], var_type_mapping: Dict[str, Any], a: ast.AST
 ) -> Tuple[ObjectStream[T], ast.AST, Type]:
@@ -826,9 +836,8 @@ def remap_by_types(
                 found_type = self.lookup_type(t_node.func.value)
                 # Nothing is declared for the methods of builtin values (str, int, ...): such a
                 # call is emitted as written.
-                if (
-                    found_type is not None
-                    and getattr(found_type, "__module__", None) != "builtins"
+                if found_type is not None and not _is_method_of_builtin(
+                    found_type, t_node.func.attr
                 ):
                     t_node = self.process_method_call(t_node, found_type)
             elif isinstance(t_node.func, ast.Name):
